@@ -20,7 +20,7 @@ ASSUMPTIONS = ["thread interleavings are sampled (yield injection + repetition),
                "besides the probe-level runs, 24 (quick) / 960 (thorough) runs, with thread switches injected inside the dispatchers, go through the library's real socket and asyncore dispatchers over loopback TCP",
                "senders start after the handshake completed, as applications do (the handshake thread's own writes are covered by C04)"]
 REQUIRED = ["runs", "stanzas_sent", "stanzas_decrypted", "interleaved_runs", "yields_injected", "ping_thread_runs", "entry:top",
-            "entry:sendIq", "entry:below-group", "real_runs", "real_ok", "wire_bytes_equal", "real:socket", "real:asyncore"]
+            "entry:sendIq", "entry:below-group", "early_sender_runs", "refused_during_handshake", "real_runs", "real_ok", "wire_bytes_equal", "real:socket", "real:asyncore"]
 TIMEOUT = {"quick": 400, "thorough": 3600}
 
 YIELD_FILES = ("yowsup/layers/__init__.py", "yowsup/layers/noise/layer.py", "yowsup/layers/noise/layer_noise_segments.py",
@@ -113,10 +113,18 @@ def one_run(acc, seed, tag, d):
     if not T.wait(lambda: len(srv.out) > 0, 20):
         acc.inconc("%s: no client hello" % tag)
         return
-    T.deliver(srv.take_out())
-    if not T.wait(lambda: srv.state == "transport" and T.noise._wa_noiseprotocol.state == "transport", 20) or T.net_sync(20) != "ok":
-        acc.inconc("%s: handshake did not complete (%s)" % (tag, srv.errors))
-        return
+    early = bool(d.get("early"))
+    if not early:
+        T.deliver(srv.take_out())
+        if not T.wait(lambda: srv.state == "transport" and T.noise._wa_noiseprotocol.state == "transport", 20) or T.net_sync(20) != "ok":
+            acc.inconc("%s: handshake did not complete (%s)" % (tag, srv.errors))
+            return
+    else:
+        acc.count("early_sender_runs")
+    refused = {"n": 0}
+
+    def in_transport():
+        return getattr(T.noise._wa_noiseprotocol, "state", None) == "transport"
     old_time = iqmod.time
     old_sw = sys.getswitchinterval()
     sys.setswitchinterval(d["switch"])
@@ -132,6 +140,7 @@ def one_run(acc, seed, tag, d):
             node = payload_node(rr, sid)
             with sent_lock:
                 sent[sid] = name
+            ready = in_transport()
             try:
                 if entry == "top":
                     T.top.send(BlobIq(node))
@@ -140,6 +149,14 @@ def one_run(acc, seed, tag, d):
                 else:
                     T.mid.send(node)
             except Exception as e:  # noqa
+                if early and not ready:
+                    # sent while the handshake was still running: a refusal reported to the sender is fine, the stanza is
+                    # then simply not expected at the peer
+                    with sent_lock:
+                        del sent[sid]
+                        refused["n"] += 1
+                    time.sleep(0.0003)
+                    continue
                 errors.append((name, type(e).__name__, str(e)[:200]))
                 return
 
@@ -178,6 +195,10 @@ def one_run(acc, seed, tag, d):
             T.stack.broadcastEvent(YowLayerEvent(YowAuthenticationProtocolLayer.EVENT_AUTHED, passive=False))
         for t in threads:
             t.start()
+        if early:
+            # the server's reply arrives while the senders are already at work
+            time.sleep(r.choice([0, 0.0005, 0.002, 0.01]))
+            T.deliver(srv.take_out())
         deadline = time.time() + 120
         for t in threads:
             t.join(max(0.1, deadline - time.time()))
@@ -211,6 +232,10 @@ def one_run(acc, seed, tag, d):
         acc.violation("send-raises:%s" % errors[0][1], "a sender got %s: %s" % (errors[0][1], errors[0][2]), w)
         return
     acc.count("stanzas_sent", len(sent))
+    acc.count("refused_during_handshake", refused["n"])
+    if early and not in_transport():
+        acc.inconc("%s: handshake did not complete in an early-sender run (%s)" % (tag, srv.errors))
+        return
     # the strict peer's verdict
     if srv.state == "error":
         acc.violation("stream-corrupt", "the byte stream at the wire cannot be parsed/decrypted in counter order: %s" % srv.errors, w)
@@ -372,7 +397,7 @@ def make_desc(r):
     k = r.choice([2, 3, 4])
     entries = [r.choice(["top", "sendIq", "below-group"]) for _ in range(k)]
     return {"entries": entries, "per_thread": r.choice([10, 30, 40]), "ping": r.random() < 0.35, "switch": r.choice([0.005, 0.00001]),
-            "yseed": r.randrange(1 << 30), "yp": r.choice([0.0, 0.02, 0.1, 0.25])}
+            "yseed": r.randrange(1 << 30), "yp": r.choice([0.0, 0.02, 0.1, 0.25]), "early": r.random() < 0.25}
 
 
 def shards(tier, seed, nworkers):
